@@ -41,6 +41,13 @@ def proj_c10(obs):
         return ("Ok", ("", found, it, ln_, [("", len(q[1]), q[2], len(q[3])) for q in qs]))
     return obs
 
+def cmp_c17(impl, model):
+    """a run in which the model met a tie (two live pairs at the minimal distance) may legitimately merge another pair: not diffed"""
+    import coqterm
+    if isinstance(model, tuple) and model and model[0] == "Ok" and isinstance(model[1], tuple) and model[1][1] == 1:
+        return None
+    return coqterm.first_diff(impl, model)
+
 PROPS = {
     "C01": {
         "subs": [sub("C01", "run_C01", "spec_C01", W_IMPORTS + ["Run.C01"], 400, 4000)],
@@ -94,6 +101,16 @@ PROPS = {
                 "duplicates, leaf == root, nested leaves, 1 in 12 outside root's subtree), annotations on phenotype terms, modifier descendants "
                 "and modifier roots; non-trivial = valid call with >= 2 leaves",
         "trust": [], "assumptions": ["root and leaves are terms of the source ontology", "non-empty leaf collection"],
+    },
+    "C17": {
+        "subs": [sub("C17", "run_C17", "spec_C17", ["Run.C17"], 400, 4000, compare=cmp_c17)],
+        "run_modules": ["C17"],
+        "rule": "n = 2..9 (thorough ..20) distinct input sets (singletons or 1-3 terms) over a flat ontology; symmetric, tie-free table of "
+                "pairwise term distances (uniform, or two tight groups with a gap so that clusters merge with clusters; one third with "
+                "distances only a few ulps apart); user distance = min / max / min + (|A|+|B|)/64 over member pairs; the four methods; cluster(), "
+                "into_cluster(), indicies() and the arguments of every callback invocation; bit-exact f32; non-trivial = n >= 5",
+        "trust": ["Flocq 4.1 binary32 (IEEE-754) as the meaning of Rust f32 + / and comparisons"],
+        "assumptions": ["symmetric distance function without ties (the property's quantifier); on a tie reported by the model only the replay (spec_C17) decides"],
     },
     "C18": {
         "subs": [sub("C18", "run_C18", "spec_C18", W_IMPORTS + ["Run.C18"], 300, 3000)],
